@@ -7,7 +7,7 @@ states), `null` is `None`.
 import GT.Base.JsonQ
 import GT.Model.RepAut
 import GT.Driver.C05
-open Lean GT.J GT
+open Lean GT.J GT GT.RepW
 namespace GT.Driver.C06
 open GT.Driver.C05
 
